@@ -75,8 +75,11 @@ def gen(rng, what, kind):
         cfg["junk_batch"] = rng.random() < 0.5      # a parameter batch on a key nothing reads: the term is the MEAN over the (identical) rows
     elif what == "ic":
         cfg["icpolys"] = [prand(rng, dim, 2, 2) or {(0,) * dim: 1} for _ in range(nout)]
-        if nout == 1 and rng.random() < 0.4:
+        if rng.random() < 0.5:          # the user's initial state may return a bare number per point (no trailing (1,) axis)
+            cfg["upolys"] = cfg["upolys"][:1]; cfg["icpolys"] = cfg["icpolys"][:1]; nout = 1
             cfg["ic_return"] = "scalar"; cfg["w"] = rng.randint(1, 6) / 2
+            while len(cfg["batch"]) < 2:
+                cfg["batch"].append([dy(rng) for _ in range(nv)])
     elif what == "norm":
         if kind == "statio" and rng.random() < 0.6:        # the integral is taken over the solution components only (a proper sub-slice)
             while len(cfg["upolys"]) < 2:
